@@ -32,6 +32,8 @@ type JS struct {
 	Members  []*JS
 	Disc     string
 	Mapping  [][2]string // discriminator value -> component name
+	// explicit `additionalProperties: false`
+	AddlFalse bool
 }
 
 type JProp struct {
@@ -87,6 +89,8 @@ func (s *JS) toSpec() map[string]any {
 			} else {
 				m["additionalProperties"] = s.Addl.toSpec()
 			}
+		} else if s.AddlFalse {
+			m["additionalProperties"] = false
 		}
 	case "ref":
 		return map[string]any{"$ref": "#/components/schemas/" + s.Ref}
@@ -189,7 +193,9 @@ func genObj(rng *PRNG, objRefs, arrRefs []string, depth int, feats jsonFeats) *J
 		o.Props = append(o.Props, JProp{Name: name, Req: rng.Bool(), S: genPropSchema(rng, objRefs, arrRefs, depth, feats)})
 	}
 	sort.Slice(o.Props, func(i, j int) bool { return o.Props[i].Name < o.Props[j].Name })
-	if feats.addl && rng.Chance(1, 3) {
+	if feats.addl && rng.Chance(1, 5) {
+		o.AddlFalse = true
+	} else if feats.addl && rng.Chance(1, 3) {
 		switch rng.Intn(3) {
 		case 0:
 			o.Addl = &JS{Kind: "any"}
@@ -826,6 +832,9 @@ func facetJSON(args []string) error {
 			feats.anyType = rng.Bool()
 		}
 		env := genJSONEnv(rng.Fork(), feats)
+		if *shard == 0 && i == 0 {
+			env = kfJSONEnv()
+		}
 		envs = append(envs, env)
 		name := fmt.Sprintf("j%02d_%03d", *shard, i)
 		results = append(results, runGoag(*work, GenSpec{Name: name, Spec: env.specDoc(), Ext: "json", DoNotEdit: true, Client: rng.Chance(1, 4)}))
@@ -849,6 +858,9 @@ func facetJSON(args []string) error {
 		stats["specs"]++
 		fmt.Fprintf(cw, "jsonspec\t%s\t%s\n", r.Name, r.SpecPath)
 		crng := rng.Fork()
+		if *shard == 0 && i == 0 {
+			crng = NewPRNG(424242) // the witness cases are the same in every run
+		}
 		leafSeen := map[string]bool{}
 		for _, tn := range env.names {
 			s := env.comps[tn]
@@ -902,4 +914,16 @@ func facetJSON(args []string) error {
 	meta, _ := json.Marshal(map[string]any{"stats": stats})
 	os.WriteFile(filepath.Join(*out, "meta.json"), meta, 0o644)
 	return rerr
+}
+
+
+// kfJSONEnv: fixed witness of KF-C06-embeddedAddl (an allOf member given by reference whose
+// schema declares additionalProperties swallows the keys of the members after it).
+func kfJSONEnv() *jsonEnv {
+	env := &jsonEnv{comps: map[string]*JS{}}
+	env.comps["Extensible"] = &JS{Kind: "obj", Addl: &JS{Kind: "any"}, Props: []JProp{{Name: "id", Req: true, S: &JS{Kind: "int"}}, {Name: "note", S: &JS{Kind: "str"}}}}
+	env.comps["Device"] = &JS{Kind: "allOf", Members: []*JS{{Kind: "ref", Ref: "Extensible"},
+		{Kind: "obj", Props: []JProp{{Name: "name", Req: true, S: &JS{Kind: "str"}}, {Name: "rack", S: &JS{Kind: "int"}}}}}}
+	env.names = []string{"Device", "Extensible"}
+	return env
 }
